@@ -130,19 +130,166 @@ class SStr:
                 out.append(z3.simplify(z3.If(z3.And(z3.UGE(ch, 97), z3.ULE(ch, 122)), ch - 32, ch)))
         return mkstr(out)
 
-    def startswith(self, p):
-        p = SStr.of(p)
-        if len(p.c) > len(self.c):
-            return False
-        return core_b(mkstr(self.c[: len(p.c)]) == mkstr(p.c))
+    def _window(self, start, end):
+        n = len(self.c)
+        if isinstance(start, SInt):
+            start = core.concretize(start)
+        if isinstance(end, SInt):
+            end = core.concretize(end)
+        a, b, _ = slice(start, end).indices(n)
+        return a, max(a, b)
 
-    def endswith(self, p):
+    def startswith(self, p, start=None, end=None):
+        if isinstance(p, tuple):
+            for q in p:
+                if self.startswith(q, start, end):
+                    return True
+            return False
         p = SStr.of(p)
-        if len(p.c) > len(self.c):
+        a, b = self._window(start, end)
+        if start is not None and (isinstance(start, int) and start > len(self.c)):
+            return False
+        if len(p.c) > b - a:
             return False
         if not p.c:
             return True
-        return core_b(mkstr(self.c[-len(p.c):]) == mkstr(p.c))
+        return core_b(mkstr(self.c[a: a + len(p.c)]) == mkstr(p.c))
+
+    def endswith(self, p, start=None, end=None):
+        if isinstance(p, tuple):
+            for q in p:
+                if self.endswith(q, start, end):
+                    return True
+            return False
+        p = SStr.of(p)
+        a, b = self._window(start, end)
+        if len(p.c) > b - a:
+            return False
+        if not p.c:
+            return True
+        return core_b(mkstr(self.c[b - len(p.c): b]) == mkstr(p.c))
+
+    def find(self, sub, start=None, end=None):
+        sub = SStr.of(sub)
+        a, b = self._window(start, end)
+        k = len(sub.c)
+        for i in range(a, b - k + 1):
+            if k == 0 or core_b(mkstr(self.c[i: i + k]) == mkstr(sub.c)):
+                return i
+        return -1
+
+    def rfind(self, sub, start=None, end=None):
+        sub = SStr.of(sub)
+        a, b = self._window(start, end)
+        k = len(sub.c)
+        for i in range(b - k, a - 1, -1):
+            if k == 0 or core_b(mkstr(self.c[i: i + k]) == mkstr(sub.c)):
+                return i
+        return -1
+
+    def index(self, sub, start=None, end=None):
+        i = self.find(sub, start, end)
+        if i < 0:
+            raise ValueError("substring not found")
+        return i
+
+    def rindex(self, sub, start=None, end=None):
+        i = self.rfind(sub, start, end)
+        if i < 0:
+            raise ValueError("substring not found")
+        return i
+
+    def count(self, sub, start=None, end=None):
+        sub = SStr.of(sub)
+        a, b = self._window(start, end)
+        k = len(sub.c)
+        if k == 0:
+            return b - a + 1
+        n, i = 0, a
+        while i <= b - k:
+            if core_b(mkstr(self.c[i: i + k]) == mkstr(sub.c)):
+                n += 1
+                i += k
+            else:
+                i += 1
+        return n
+
+    def removeprefix(self, p):
+        return self[len(SStr.of(p).c):] if self.startswith(p) else self
+
+    def removesuffix(self, p):
+        k = len(SStr.of(p).c)
+        return self[: len(self.c) - k] if k and self.endswith(p) else self
+
+    def _all(self, pred_concrete, pred_term):
+        """str.isX(): true iff non-empty and every character satisfies the predicate (ASCII / Latin-1 semantics of the concrete str for concrete characters)."""
+        if not self.c:
+            return False
+        for ch in self.c:
+            if isinstance(ch, int):
+                if not pred_concrete(chr(ch)):
+                    return False
+            elif not core_b(core.sbool(pred_term(ch))):
+                return False
+        return True
+
+    @staticmethod
+    def _set_term(ch, pred):
+        codes = [k for k in range(256) if pred(chr(k))]
+        return z3.Or(*[ch == k for k in codes]) if codes else z3.BoolVal(False)
+
+    def isdigit(self):
+        return self._all(str.isdigit, lambda ch: SStr._set_term(ch, str.isdigit))
+
+    def isdecimal(self):
+        return self._all(str.isdecimal, lambda ch: SStr._set_term(ch, str.isdecimal))
+
+    def isalpha(self):
+        return self._all(str.isalpha, lambda ch: SStr._set_term(ch, str.isalpha))
+
+    def isalnum(self):
+        return self._all(str.isalnum, lambda ch: SStr._set_term(ch, str.isalnum))
+
+    def isspace(self):
+        return self._all(str.isspace, lambda ch: SStr._set_term(ch, str.isspace))
+
+    def isascii(self):
+        for ch in self.c:
+            if isinstance(ch, int):
+                if ch > 127:
+                    return False
+            elif not core_b(core.sbool(z3.ULT(ch, 128))):
+                return False
+        return True
+
+    def casefold(self):
+        for ch in self.c:
+            if not isinstance(ch, int) or ch > 127:
+                raise Unmodelled("SStr.casefold on non-ASCII / symbolic text")
+        return self.lower()
+
+    def rsplit(self, sep=None, maxsplit=-1):
+        if maxsplit < 0:
+            return self.split(sep, maxsplit)
+        if not isinstance(sep, str) or len(sep) != 1:
+            raise Unmodelled("SStr.rsplit(sep) with non single-character separator")
+        parts, cur, n = [], [], 0
+        for ch in reversed(self.c):
+            if n < maxsplit and core_b(mkstr((ch,)) == sep):
+                parts.append(mkstr(list(reversed(cur))))
+                cur = []
+                n += 1
+            else:
+                cur.append(ch)
+        parts.append(mkstr(list(reversed(cur))))
+        return list(reversed(parts))
+
+    def zfill(self, n):
+        if len(self.c) >= n:
+            return self
+        if self.c and isinstance(self.c[0], int) and chr(self.c[0]) not in "+-":
+            return mkstr([48] * (n - len(self.c)) + list(self.c))
+        raise Unmodelled("SStr.zfill with a possible sign")
 
     def split(self, sep=None, maxsplit=-1):
         if not isinstance(sep, str) or len(sep) != 1:
